@@ -52,7 +52,10 @@ func planSuite(maxLen int) hlib.Suite {
 				return
 			}
 			for _, m := range modes {
-				for _, d := range []time.Duration{time.Second, 2 * time.Second} {
+				for _, d := range []time.Duration{time.Second, 2 * time.Second, 1500 * time.Millisecond} {
+					if d == 1500*time.Millisecond && m != "constant" && m != "users" {
+						continue // one duration that is not a whole number of seconds, on two modes
+					}
 					rec(append(cur, st{m, d}))
 				}
 			}
@@ -71,11 +74,16 @@ func planSuite(maxLen int) hlib.Suite {
 				total += s.d
 				ends = append(ends, total)
 			}
-			for _, withStart := range []bool{false, true} {
+			for _, startKind := range []int{0, 1, 2} {
+				withStart := startKind > 0
+				T0 := T0
+				if startKind == 2 {
+					T0 = T0.Add(900 * time.Millisecond) // a stage-start that is not on a whole second
+				}
 				var b strings.Builder
 				b.WriteString("scenario: sc\n" + limitsBlock())
 				if withStart {
-					b.WriteString("schedule:\n  stage-start: " + T0.Format(time.RFC3339) + "\n")
+					b.WriteString("schedule:\n  stage-start: " + T0.Format(time.RFC3339Nano) + "\n")
 				}
 				b.WriteString("stages:\n")
 				for i, s := range l {
@@ -84,7 +92,7 @@ func planSuite(maxLen int) hlib.Suite {
 				doc := b.String()
 				nows := []time.Duration{-time.Second, total + time.Hour}
 				for _, e := range ends {
-					nows = append(nows, e-1, e, e+1)
+					nows = append(nows, e-1, e, e+1, e-400*time.Millisecond, e+400*time.Millisecond)
 				}
 				if !withStart {
 					nows = []time.Duration{0, total + time.Hour}
